@@ -91,9 +91,20 @@ pub fn run_tokens(args: &Args, mut out: Out) {
                             if held.len() < size {
                                 // on a helper thread: a take that never returns is data ("hang"), not a stuck harness
                                 let (tx, rx) = std::sync::mpsc::channel();
-                                let owned = set.take().unwrap();
+                                let mut owned = set.take().unwrap();
+                                // the three ways to take a unit: the blocking call, the async call (what accept_loop uses),
+                                // and the call with a real timeout
+                                let route = (sid as usize + steps.len()) % 3;
                                 std::thread::spawn(move || {
-                                    let t = owned.wait_token();
+                                    let t = match route {
+                                        0 => owned.wait_token(),
+                                        1 => futures_lite::future::block_on(owned.async_wait_token()),
+                                        _ => loop {
+                                            if let Ok(t) = owned.wait_token_timeout(Duration::from_millis(50)) {
+                                                break t;
+                                            }
+                                        },
+                                    };
                                     let _ = tx.send((owned, t));
                                 });
                                 match rx.recv_timeout(Duration::from_millis(if hangs == 0 { 3000 } else { 300 })) {
